@@ -40,6 +40,10 @@ type Cfg struct {
 	Desc    string `json:"desc"` // absent, right, wrong-digest, size+1, size-1, size-only, digest-only
 	Algo    string `json:"algo"`
 	Reader  string `json:"reader"` // seek, noseek, onebyte
+	// Flaky: a front end answers the PATCH of the chunk that starts at offset 0 ("first") or at the
+	// chunk size ("second") with 502 (not forwarded) until the client has asked the session for its
+	// status, and is transparent afterwards; the registry states an empty session as "0--1"
+	Flaky string `json:"flaky,omitempty"`
 	Loc     string `json:"loc"`    // "", abs, query
 	MinCh   int    `json:"chunk_min"`
 	Target  string `json:"target"` // reg, dir
@@ -54,7 +58,7 @@ type Cfg struct {
 }
 
 func (c Cfg) String() string {
-	return fmt.Sprintf("len=%d chunk=%d max=%d desc=%s/%s reader=%s loc=%q minchunk=%d tgt=%s via=%q", c.Len, c.Chunk, c.Max, c.Desc, c.Algo, c.Reader, c.Loc, c.MinCh, c.Target, c.Via) + map[bool]string{true: " mount=" + c.Mount}[c.Mount != ""]
+	return fmt.Sprintf("len=%d chunk=%d max=%d desc=%s/%s reader=%s loc=%q minchunk=%d tgt=%s via=%q", c.Len, c.Chunk, c.Max, c.Desc, c.Algo, c.Reader, c.Loc, c.MinCh, c.Target, c.Via) + map[bool]string{true: " mount=" + c.Mount}[c.Mount != ""] + map[bool]string{true: " flaky-chunk=" + c.Flaky}[c.Flaky != ""]
 }
 
 func content(n int) []byte {
@@ -262,6 +266,10 @@ func run(t *testing.T, c *explore.Ctx, cfg Cfg, scratch string) *result {
 		}
 		f.ChunkMin = cfg.MinCh
 		f.AnonMount = cfg.Mount == "anon"
+		if cfg.Flaky != "" {
+			f.EmptyRange = "minus1"
+		}
+		statusAsked := false
 		h := net.AddHost(host, f)
 		if cfg.Preload {
 			h.Repo("other/repo").Blobs[right.Digest.String()] = res.data
@@ -279,6 +287,26 @@ func run(t *testing.T, c *explore.Ctx, cfg Cfg, scratch string) *result {
 				return &modelreg.Answer{Err: errors.New("harness: request horizon")}
 			}
 			cutUnit = cfg.Chunk
+			if cfg.Flaky != "" {
+				// configuration, not a deviation (the failures outlast the request-level retries)
+				if e.Kind == "upload-get" {
+					statusAsked = true
+				}
+				if e.Kind == "upload-patch" && !statusAsked {
+					want := 0
+					if cfg.Flaky == "second" {
+						want = cfg.Chunk
+					}
+					var a, b int
+					if cr := e.Header.Get("Content-Range"); cr != "" {
+						fmt.Sscanf(cr, "%d-%d", &a, &b)
+					}
+					if a == want {
+						return &modelreg.Answer{Status: 502, Header: http.Header{}, Body: []byte("bad gateway"), Note: "flaky-502"}
+					}
+				}
+				return nil
+			}
 			if cfg.Loc == "redir" && len(e.Body) > 0 && e.Query.Get("_moved") == "" && (e.Kind == "upload-put" || e.Kind == "upload-patch") {
 				// configuration, not a deviation: a front end that relocates every data-carrying
 				// request of the session (307: same method, same body, other URL)
@@ -474,6 +502,10 @@ func judge(r *result) (string, string) {
 	// a source that cannot be rewound cannot be sent a second time: after a transient failure or a
 	// relocation of the data-carrying request no client can complete it (safety clauses still apply)
 	live := cfg.Reader != "noseek" || (len(r.faults) == 0 && cfg.Loc != "redir")
+	if cfg.Flaky != "" {
+		// chunks are buffered by the client, so a chunk can be sent again whatever the source is
+		live = true
+	}
 	if cfg.Target == "dir" {
 		live = true
 	}
@@ -558,6 +590,22 @@ func grid(thorough bool) []item {
 			}
 		}
 	}
+	// 1b. a front end that fails one chunk until the client asks the session where it stands
+	for _, c := range []int{1, 2, 3} {
+		for _, n := range []int{1, c, c + 1, 2*c + 1, 3 * c} {
+			for _, d := range []string{"absent", "right"} {
+				for _, rd := range []string{"seek", "noseek"} {
+					for _, fl := range []string{"first", "second"} {
+						mx := -1
+						if d == "right" {
+							mx = 1 // declared and over the single-request limit: chunked
+						}
+						out = append(out, item{Cfg{Len: n, Chunk: c, Max: mx, Desc: d, Algo: "sha256", Reader: rd, Target: "reg", Flaky: fl}, 0})
+					}
+				}
+			}
+		}
+	}
 	// 2. server deviations
 	b := 2
 	if thorough {
@@ -603,7 +651,7 @@ type replay struct {
 func TestVerifC05(t *testing.T) {
 	rec := ev.New()
 	defer rec.Flush(t)
-	rec.Rule("configuration grid = blob length around every chunk/max boundary × chunk size × single-request limit × declared descriptor {absent, right, wrong digest, size±1, size only, digest only} × {sha256, sha512} × reader {seekable, non-seekable, one byte at a time, failing half way (plain and rewindable)} × upload Location style {relative, absolute, with query, every data-carrying request relocated by a 307} × server minimum chunk × anonymous mount declined / accepted (another repository holds the declared digest) × destination {registry model, OCI layout}; " +
+	rec.Rule("configuration grid = blob length around every chunk/max boundary × chunk size × single-request limit × declared descriptor {absent, right, wrong digest, size±1, size only, digest only} × {sha256, sha512} × reader {seekable, non-seekable, one byte at a time, failing half way (plain and rewindable)} × a front end failing the first / the second chunk with 502 until the client asks the session for its status (registry stating an empty session as 0--1) × upload Location style {relative, absolute, with query, every data-carrying request relocated by a 307} × server minimum chunk × anonymous mount declined / accepted (another repository holds the declared digest) × destination {registry model, OCI layout}; " +
 		"for the registry additionally every sequence of at most k deviations at the upload requests {500, connection reset, reply lost after the server applied the request, connection lost in the middle of the single PUT's body with the received prefix kept by the session (cut after 1, chunk, chunk+1, 2·chunk+1, all-but-one bytes), 413 on the single PUT, early 201, 416 re-sync, 202 without Range, partial acceptance of 1..3 bytes of a chunk}, k=2 quick / 3 thorough. " +
 		"Oracle: committed bytes under the returned digest = stream; a failing source ⇒ error and nothing committed under the declared, the full or the prefix digest; declared≠actual ⇒ error and nothing under the declared digest; well-formed input against conforming behaviour succeeds. distinct_nontrivial = distinct (configuration, deviation list, outcome)")
 	rec.Assume("the in-memory transport reproduces net/http's Content-Length enforcement; all deviations offered are behaviours a conforming registry or a flaky network may show")
